@@ -162,9 +162,10 @@ def _captured(stmt: ast.stmt, name: str, free: Set[str]) -> bool:
     return walk(stmt, set())
 
 
-def _one_pass(fn, recorded: Dict[str, list], suspects: Set[str] = frozenset()) -> Optional[str]:
+def _one_pass(fn, recorded: Dict[str, list], suspects: Set[str] = frozenset(), leaf_only: bool = False) -> Optional[str]:
     par = _params(fn)
     bs = bindings(fn)
+    unknown = {n for n in bs if n not in recorded and n not in par}
     nested_names = set()
     for n in _own(fn):
         if isinstance(n, FuncDef + (ast.Lambda,)):
@@ -199,6 +200,8 @@ def _one_pass(fn, recorded: Dict[str, list], suspects: Set[str] = frozenset()) -
         free = _free_loads(value)
         if name in free:
             continue
+        if leaf_only and (free & (unknown - {name})):
+            continue   # defined in terms of another unknown local: decided once that one has been renamed back or read through
         last = max(k for k, s in enumerate(after) if any(isinstance(n, ast.Name) and n.id == name for n in ast.walk(s)))
         span = after[:last + 1]
         touched = _touched(span, name)
@@ -221,34 +224,42 @@ def _one_pass(fn, recorded: Dict[str, list], suspects: Set[str] = frozenset()) -
     return None
 
 
-def inline_new_temps(fn, recorded: Dict[str, list]) -> List[str]:
-    done = []
-    # a recorded local that is gone may be living on under one of the unknown names (a renaming the rename-back stage
-    # could not resolve): an unknown name bound like a vanished local - up to the names of locals - is left alone
+def _suspects(fn, recorded: Dict[str, list]) -> Set[str]:
+    """A recorded local that is gone may be living on under one of the unknown names (a renaming the rename-back stage
+    has not resolved): an unknown name bound like a vanished local - up to the names of locals - is left alone."""
+    import re
+    from .renameback import signature
     present = {n.id for n in _own(fn) if isinstance(n, ast.Name)} | _params(fn)
     missing = [r for r in recorded if r not in present and r != "_"]
-    suspects: Set[str] = set()
-    if missing:
-        import re
-        from .renameback import signature
-        cur = signature(fn)
-        local_names = set(recorded) | set(cur)
+    if not missing:
+        return set()
+    cur = signature(fn)
+    local_names = set(recorded) | set(cur)
 
-        def anon(sig):
-            return tuple(re.sub(r"\b[A-Za-z_]\w*\b", lambda m: "_" if m.group(0) in local_names else m.group(0), x) for x in sig)
-        gone = {anon(recorded[r]) for r in missing}
-        suspects = {t for t in cur if t not in recorded and anon(cur[t]) in gone}
+    def anon(sig):
+        return tuple(re.sub(r"\b[A-Za-z_]\w*\b", lambda m: "_" if m.group(0) in local_names else m.group(0), x) for x in sig)
+    gone = {anon(recorded[r]) for r in missing}
+    return {t for t in cur if t not in recorded and anon(cur[t]) in gone}
+
+
+def inline_new_temps(fn, recorded: Dict[str, list], leaf_only: bool = False) -> List[str]:
+    done = []
     for _ in range(40):
-        nm = _one_pass(fn, recorded, suspects)
+        # (recomputed after every substitution: reading a temporary through can complete the binding of a renamed local)
+        nm = _one_pass(fn, recorded, _suspects(fn, recorded), leaf_only)
         if nm is None:
             break
         done.append(nm)
+        if leaf_only:
+            break   # one at a time: the rename-back stage gets its turn after each
     return done
 
 
-def apply(trees, recorded) -> List[str]:
+def apply(trees, recorded, leaf_only: bool = False) -> List[str]:
     """trees: {module name: (relative path, tree)}; returns a log; the changed function nodes are re-canonicalised by
-    the caller."""
+    the caller.  leaf_only: only temporaries whose value mentions no other unknown local (the loader alternates this with
+    the rename-back stage, so that a renamed local whose binding mentions a new temporary is recognised once that
+    temporary has been read through, and vice versa)."""
     from .inline import qualnames
     log = []
     if recorded is None:
@@ -259,7 +270,7 @@ def apply(trees, recorded) -> List[str]:
             continue
         for q, (fn, _cls) in qualnames(tree).items():
             if q in rec:
-                d = inline_new_temps(fn, rec[q])
+                d = inline_new_temps(fn, rec[q], leaf_only)
                 if d:
                     log.append(f"{rel}: {q}: new temporaries substituted {d}")
     return log
